@@ -18,6 +18,8 @@ fn spaces(tier: Tier) -> Vec<Space> {
             Space { alpha: "A0", depth: 2 },
             Space { alpha: "MICRO", depth: 3 },
             Space { alpha: "SHARE", depth: 3 },
+            Space { alpha: "SAME", depth: 2 },
+            Space { alpha: "SAME", depth: 3 },
             Space { alpha: "A1", depth: 2 },
             Space { alpha: "CORE", depth: 3 },
         ],
@@ -32,10 +34,13 @@ fn spaces(tier: Tier) -> Vec<Space> {
             Space { alpha: "BIND", depth: 2 },
             Space { alpha: "MICRO", depth: 3 },
             Space { alpha: "SHARE", depth: 3 },
+            Space { alpha: "SAME", depth: 2 },
+            Space { alpha: "SAME", depth: 3 },
             Space { alpha: "CORE", depth: 3 },
             Space { alpha: "A0", depth: 3 },
             Space { alpha: "MICRO", depth: 4 },
             Space { alpha: "SHARE", depth: 4 },
+            Space { alpha: "SAME", depth: 4 },
             Space { alpha: "A2", depth: 2 },
             Space { alpha: "CORE", depth: 4 },
         ],
